@@ -17,7 +17,7 @@ use fri::FriProof;
 use math::fields::{f128, f62, f64, CubeExtension, QuadExtension};
 use math::FieldElement;
 use simcore::{guard, Arm, CheckSpec, Chooser, Ctx, FnArm, RunInfo, Tier};
-use utils::{ByteReader, Deserializable, ReadAdapter, Serializable, SliceReader};
+use utils::{ByteReader, ByteWriter, Deserializable, ReadAdapter, Serializable, SliceReader};
 
 use crate::dispatch::*;
 use crate::pipe::*;
@@ -145,7 +145,7 @@ fn gen_elem<E: FieldElement>(ch: &mut Chooser) -> E {
 }
 
 fn primitives(ch: &mut Chooser, ctx: &mut Ctx) {
-    match ch.index("prim.type", 22) {
+    match ch.index("prim.type", 29) {
         0 => {
             let v = (ch.pick("v", 256) as u8);
             check(ch, ctx, "u8", &v)
@@ -238,10 +238,61 @@ fn primitives(ch: &mut Chooser, ctx: &mut Ctx) {
             let v: Vec<Option<(u8, Vec<u16>)>> = (0..n).map(|i| if i % 3 == 0 { None } else { Some((i as u8, vec![i as u16; i % 4])) }).collect();
             check(ch, ctx, "Vec<Option<(u8,Vec<u16>)>>", &v)
         },
-        _ => {
+        21 => {
             let n = gen_len(ch).min(130);
             let v: Vec<(usize, u64)> = (0..n).map(|i| (i * 16000 + 127, i as u64)).collect();
             check(ch, ctx, "Vec<(usize,u64)>", &v)
+        },
+        // tuples of every implemented arity (their field order is the wire order)
+        22 => {
+            let v = (boundary_usize(ch),);
+            check(ch, ctx, "(usize,)", &v)
+        },
+        23 => {
+            let v = (ch.pick("a", 256) as u8, ch.u64("b") as u16, ch.u64("c") as u32);
+            check(ch, ctx, "(u8,u16,u32)", &v)
+        },
+        24 => {
+            let n = gen_len(ch).min(50);
+            let v = (ch.pick("a", 256) as u8, rand_bytes(ch, n), ch.u64("c"), if ch.chance("some?", 1, 2) { Some(ch.u64("d") as u16) } else { None });
+            check(ch, ctx, "(u8,Vec<u8>,u64,Option<u16>)", &v)
+        },
+        25 => {
+            let v = (ch.u64("a") as u16, ch.pick("b", 256) as u8, ch.u64("c") as u128, ch.u64("d") as u32, boundary_usize(ch));
+            check(ch, ctx, "(u16,u8,u128,u32,usize)", &v)
+        },
+        26 => {
+            let v = (ch.pick("a", 256) as u8, ch.u64("b") as u16, ch.u64("c") as u32, ch.u64("d"), ch.u64("e") as u128, "s".repeat(ch.index("f", 4)));
+            check(ch, ctx, "(u8,u16,u32,u64,u128,String)", &v)
+        },
+        27 => {
+            // the unit type occupies no bytes: n units are a length prefix and nothing else
+            let n = gen_len(ch).min(300);
+            let v: Vec<()> = vec![(); n];
+            check(ch, ctx, "Vec<()>", &v)
+        },
+        _ => {
+            // writers for borrowed values: &T, [T] and str must produce what the owned forms
+            // produce (length prefix, then the elements), so that they decode as Vec<T> / String
+            let n = gen_len(ch).min(200);
+            let v: Vec<u32> = rand_bytes(ch, n).iter().map(|b| (*b as u32) << 9 | 5).collect();
+            let mut a = vec![];
+            a.write(&v);
+            if a != v.to_bytes() {
+                ctx.violation("C12/&Vec<u32>/bytes-differ-from-owned", format!("writing &Vec<u32> of {n} elements gives other bytes than writing the vector"));
+            }
+            let mut b = vec![];
+            v[..].write_into(&mut b);
+            if b != v.to_bytes() {
+                ctx.violation("C12/[u32]/bytes-differ-from-Vec", format!("writing a slice of {n} u32 gives other bytes than writing the vector (a slice must decode as Vec<T>)"));
+            }
+            let s: String = rand_bytes(ch, n).iter().map(|b| (b' ' + b % 90) as char).collect();
+            let mut c = vec![];
+            s.as_str().write_into(&mut c);
+            if c != s.to_bytes() {
+                ctx.violation("C12/str/bytes-differ-from-String", format!("writing a str of {n} bytes gives other bytes than writing the String"));
+            }
+            check(ch, ctx, "Vec<u32>", &v)
         },
     }
 }
